@@ -1,6 +1,7 @@
 package play
 
 import (
+	"github.com/berquerant/crd/errorx"
 	"github.com/berquerant/crd/input"
 	"github.com/berquerant/crd/midix"
 	"github.com/berquerant/crd/op"
@@ -31,6 +32,11 @@ func (m *midiArgs) writeWhenUpdated(w midix.Writer) error {
 		w.Tempo(int(v))
 	})
 	m.meter.WhenUpdated(func(v op.Meter) {
+		// a time signature event holds the numerator in one byte and the denominator as a power of 2
+		if v.Num > 255 || v.Denom > 128 || v.Denom&(v.Denom-1) != 0 {
+			err = errorx.Invalid("meter %d/%d does not fit a midi file", v.Num, v.Denom)
+			return
+		}
 		w.Meter(uint8(v.Num), uint8(v.Denom))
 	})
 	m.key.WhenUpdated(func(v op.Key) {
